@@ -36,7 +36,7 @@ import impl
 import scan_units
 
 ID = 'C01'
-EXTRA_MODULES = ['Mistletoe.Proofs.BlockTotal', 'Mistletoe.Proofs.MdTotal', 'Mistletoe.Proofs.ContribTotal']
+EXTRA_MODULES = ['Mistletoe.Proofs.BlockTotal', 'Mistletoe.Proofs.MdTotal', 'Mistletoe.Proofs.ContribTotal', 'Mistletoe.Proofs.HtmlFamilyTotal']
 RULE = ('random documents, spec mutations/splices, malformed Unicode stream, exhaustive strings over {a,space,*,_,.,[,],`} '
         'and exhaustive line sequences over a 14-line vocabulary, deep nesting (quotes, lists, brackets, emphasis) to depth '
         '100; x the 11 bundled renderers x their boolean options x max_line_length in {None,0,1,2,40}; supplied as str, '
@@ -45,10 +45,12 @@ RULE = ('random documents, spec mutations/splices, malformed Unicode stream, exh
 TRUSTED = ['per-input wall-clock budget enforced with SIGALRM (10 s for <= 4 KB)', 'Pygments itself is exercised, not modelled']
 ASSUMPTIONS = ['admissible failures: RuntimeError from LaTeX inline code without a free \\\\verb delimiter; pygments ClassNotFound '
                'with fail_on_unsupported_language=True; RecursionError only beyond nesting depth 100']
-PARTIAL = ['the theorems cover the parser (block phase, token constructors, inline phase) and the Html, Markdown, Jira and XWiki '
-           'renderers (C01_html_total, C01_markdown_total, C01_jira_total, C01_xwiki_total, C01_latex_total_or_refusal); Ast / Toc / '
-           'GithubWiki / MathJax renderers are total Lean functions by construction of their models (no raise site other than '
-           'the documented LaTeX refusal), their totality on the implementation is explored; Pygments is not modelled',
+PARTIAL = ['the theorems cover the parser (block phase, token constructors, inline phase) and the Html, Markdown, Jira, XWiki and LaTeX '
+           'renderers (C01_html_total, C01_markdown_total, C01_jira_total, C01_xwiki_total, C01_latex_total_or_refusal) and the HTML '
+           'family (C01_html_family_total: Html with / without process_html_tokens, Toc, GithubWiki, MathJax - every parsed document holds '
+           'only tokens the renderer has a render method for; Pygments exactly when there is no code block); the Ast renderer is a total '
+           'Lean function by construction of its model (get_ast has no raise site), its totality on the implementation is explored; '
+           'Pygments is not modelled',
            'wall-clock termination and the interpreter recursion limit are runtime behaviour: measured on the '
            'implementation (depth <= 100), represented in the model by the gas bound']
 
